@@ -19,6 +19,17 @@ CHECKS = {
          "Bounded: exhaustive to 3 (quick) / 4 (thorough) page nodes over a fixed 4-component library; beyond that sampled. Well-formed programs "
          "only; constructs whose outcome the property does not determine are flagged as zones by the specification and skipped.",
          "§3, §4 C01"),
+ "C03": ("model_checking",
+         "TLC-evaluated reference semantics (layered scoping rules of DjcSemantics.tla) + exhaustive enumeration of colliding-name pages (MC_Djc 'scope') replayed with context probes + TLC validation of random programs, 2-run pairs and Component.render(context=)",
+         "The scoping rules of the TLA+ reference semantics (what a component template sees per mode/`only`; what a fill sees) are the oracle; "
+         "TLC enumerates every page up to a node bound over an alphabet of colliding names (page context, loop variables, with-bindings, kwargs, "
+         "component data, `only`) in both modes and checks NonInterference as a theorem of the semantics; every page is replayed on the real "
+         "library with the caller's Context fingerprinted before/after every component tag and around the render. Random colliding programs, "
+         "isolated 2-run pairs under two different page contexts and Component.render(context=) are validated by TLC against the same semantics. "
+         "Known deviations are named switches of the specification and must predict the observation exactly.",
+         "Bounded exhaustive part (3/4 page nodes, fixed library); isolated-mode {% with %} between tag and fill that re-binds a bound name is an "
+         "unspecified zone (flagged by the spec, skipped).",
+         "§3, §4 C03"),
  "C18": ("model_checking",
          "TLC exhaustive state graph of LRUCache/TemplateCache + transition replay + TLC trace validation",
          "TLC enumerates the complete state graph of the LRU specification for every cache size and checks "
